@@ -197,7 +197,8 @@ def path_parser(ctx, job, box):
     if job.params.get('shift_inside_csi'):
         # the shift character arrives in the middle of a CSI sequence: it is not one of the controls the
         # grammar executes there, so it must not select G1 in either mode
-        chars = [0x1b, ord('['), ord('1'), shift, ord('m'), c]
+        # (there it acts as an unknown final byte, which also ends the sequence)
+        chars = [0x1b, ord('['), ord('1'), shift, c]
         shift = None
         slot, code = '(', 'B'
     else:
